@@ -19,11 +19,7 @@ fn osc_at(len: usize, first_cut: Option<usize>) -> (Parser, Vt<BIG>) {
     {
         m.osc_cap = Some(CAP);
     }
-    let mut i = 0;
-    while i < len {
-        m.osc[i] = b'x';
-        i += 1;
-    }
+    m.osc = [b'x'; BIG];
     m.osc_len = len;
     let mut osc_params = [(0usize, 0usize); 16];
     let mut n_cuts = 0;
@@ -49,18 +45,121 @@ fn osc_at(len: usize, first_cut: Option<usize>) -> (Parser, Vt<BIG>) {
     (p, m)
 }
 
+/// Compact record of one callback (what the boundary harness needs to see: kinds, counts,
+/// lengths and the bytes at the ends -- not a 1 KiB byte-by-byte comparison).
+#[derive(Clone, Copy, PartialEq, Eq, Debug)]
+struct Obs {
+    kind: u8,
+    a: usize,
+    b: usize,
+    c: usize,
+    d: u32,
+}
+
+const NONE: Obs = Obs {
+    kind: 0,
+    a: 0,
+    b: 0,
+    c: 0,
+    d: 0,
+};
+
+struct Recorder {
+    evs: [Obs; 3],
+    n: usize,
+}
+
+impl Recorder {
+    fn new() -> Self {
+        Recorder { evs: [NONE; 3], n: 0 }
+    }
+    fn rec(&mut self, o: Obs) {
+        if self.n < 3 {
+            self.evs[self.n] = o;
+        }
+        self.n += 1;
+    }
+}
+
+impl Perform for Recorder {
+    fn print(&mut self, c: char) {
+        self.rec(Obs { kind: 1, a: 0, b: 0, c: 0, d: c as u32 });
+    }
+    fn execute(&mut self, byte: u8) {
+        self.rec(Obs { kind: 2, a: 0, b: 0, c: 0, d: byte as u32 });
+    }
+    fn osc_dispatch(&mut self, params: &[&[u8]], bell: bool) {
+        let n = params.len();
+        let first = if n > 0 { params[0].len() } else { 0 };
+        let last = if n > 0 { params[n - 1].len() } else { 0 };
+        // last byte of the last field (0 if empty), and the terminator kind
+        let tail = if n > 0 && last > 0 { params[n - 1][last - 1] } else { 0 };
+        self.rec(Obs { kind: 3, a: n, b: first, c: last, d: ((tail as u32) << 1) | bell as u32 });
+    }
+    fn csi_dispatch(&mut self, params: &Params, intermediates: &[u8], ignore: bool, action: u8) {
+        let first = match params.iter().next() {
+            Some(g) if !g.is_empty() => g[0] as usize,
+            _ => 0,
+        };
+        self.rec(Obs { kind: 4, a: params.len(), b: first, c: intermediates.len(), d: ((action as u32) << 1) | ignore as u32 });
+    }
+    fn esc_dispatch(&mut self, intermediates: &[u8], ignore: bool, byte: u8) {
+        self.rec(Obs { kind: 5, a: intermediates.len(), b: 0, c: 0, d: ((byte as u32) << 1) | ignore as u32 });
+    }
+    fn hook(&mut self, params: &Params, intermediates: &[u8], ignore: bool, action: u8) {
+        self.rec(Obs { kind: 6, a: params.len(), b: 0, c: intermediates.len(), d: ((action as u32) << 1) | ignore as u32 });
+    }
+    fn put(&mut self, byte: u8) {
+        self.rec(Obs { kind: 7, a: 0, b: 0, c: 0, d: byte as u32 });
+    }
+    fn unhook(&mut self) {
+        self.rec(Obs { kind: 8, a: 0, b: 0, c: 0, d: 0 });
+    }
+}
+
+/// The same record, derived from the model's expectation for this byte.
+fn expected<const N: usize>(m: &Vt<N>, evs: &vt::Evs) -> ([Obs; 3], usize) {
+    let mut out = [NONE; 3];
+    let mut n = 0;
+    let mut i = 0;
+    while i < 3 {
+        if let Some(ev) = evs.e[i] {
+            out[n] = match ev {
+                vt::Ev::Print(c) => Obs { kind: 1, a: 0, b: 0, c: 0, d: c },
+                vt::Ev::Execute(b) => Obs { kind: 2, a: 0, b: 0, c: 0, d: b as u32 },
+                vt::Ev::OscDispatch { bell } => {
+                    let k = m.osc_fields();
+                    let (b0, e0) = if k > 0 { m.osc_field(0) } else { (0, 0) };
+                    let (bl, el) = if k > 0 { m.osc_field(k - 1) } else { (0, 0) };
+                    let tail = if k > 0 && el > bl && el - 1 < N { m.osc[el - 1] } else { 0 };
+                    Obs { kind: 3, a: k, b: e0 - b0, c: el - bl, d: ((tail as u32) << 1) | bell as u32 }
+                }
+                vt::Ev::CsiDispatch(a) => Obs { kind: 4, a: m.n, b: if m.n > 0 { m.vals[0] as usize } else { 0 }, c: m.n_inter, d: ((a as u32) << 1) | m.ignore as u32 },
+                vt::Ev::EscDispatch(b) => Obs { kind: 5, a: m.n_inter, b: 0, c: 0, d: ((b as u32) << 1) | m.ignore as u32 },
+                vt::Ev::Hook(a) => Obs { kind: 6, a: m.n, b: 0, c: m.n_inter, d: ((a as u32) << 1) | m.ignore as u32 },
+                vt::Ev::Put(b) => Obs { kind: 7, a: 0, b: 0, c: 0, d: b as u32 },
+                vt::Ev::Unhook => Obs { kind: 8, a: 0, b: 0, c: 0, d: 0 },
+            };
+            n += 1;
+        }
+        i += 1;
+    }
+    (out, n)
+}
+
 fn lock<const N: usize>(parser: &mut Parser, model: &mut Vt<N>, b: u8) -> bool {
     let evs = model.step(b);
-    let mut chk = Checker::new(&*model, evs);
-    parser.advance(&mut chk, b);
-    chk.finished()
+    let (want, wn) = expected(&*model, &evs);
+    let mut rec = Recorder::new();
+    parser.advance(&mut rec, b);
+    rec.n == wn && rec.evs[0] == want[0] && rec.evs[1] == want[1] && rec.evs[2] == want[2]
 }
 
 macro_rules! boundary_case {
     ($name:ident, $len:expr, $cut:expr) => {
         /// Two arbitrary 7-bit bytes at the buffer boundary, then the terminator.
         #[kani::proof]
-        #[kani::unwind(1034)]
+        #[kani::unwind(20)]
         fn $name() {
             let (mut p, mut m) = osc_at($len, $cut);
             let b1: u8 = kani::any();
